@@ -62,8 +62,10 @@ class Shuffle(pipes.Shuffle, EnvironmentFilter):
             new_seed = self._seed * 3.21 if self._seed is not None else self._seed
 
             self._seed = new_seed
-            yield from super().filter(interactions)
-            self._seed = old_seed
+            try:
+                yield from super().filter(interactions)
+            finally:
+                self._seed = old_seed
 
         else:
             yield from super().filter(interactions)
